@@ -18,8 +18,24 @@ INTERPRETATION (the reading of the property text that the check demands):
   * several input rows that give values to the same record are applied in input order (the last
     one wins) - this can only happen with an empty `require` (allow_empty_require) or with require
     keys that coincide after type conversion.
-  * the added record is `{**require, **col_values}` over the column defaults, formula columns of
+  * the added record is `{**require, **col_values}` over the column defaults, REAL formula columns of
     `require` left out (they cannot be stored); values are stored as `col.convert` gives them.
+  * EMPTY columns (isFormula with formula '': the state of a freshly added column; column `e`, type
+    Any) accept data like data columns: their `require` values ARE stored in an added record (the code:
+    `require_add_keys` drops a column only if it `is_formula()` AND has formula text), they may be
+    given in `col_values`, and looking a key up in a still-empty column compares it (unconverted, the
+    type is Any) with its cells, which are all None.  What storing into an empty column means is the
+    documented behaviour of `_ensure_column_accepts_data`, taken as a parameter from the live code
+    like `col.convert`: each of the two bulk actions of an upsert (BulkAddRecord first, then
+    BulkUpdateRecord) that carries a value for a still-empty column has `guess_col_info` look at ITS
+    values; all blank (None / '') -> the column stays empty and None is stored; otherwise the column
+    becomes a data column of the guessed type, every record that exists at that moment gets that
+    type's default in it, and the values are stored as the new type converts them.  Only the record of
+    that column in _grist_Tables_column may change (type, isFormula).
+  * an added record matches its own `require` afterwards, column by column (`col.convert(sent value)
+    == stored cell` with the column as it is after the action; real formula columns and columns
+    overridden by `col_values` excepted) - otherwise repeating the request adds a duplicate instead of
+    updating.
   * invalid arguments = bad on_many; empty require without allow_empty_require; value lists of
     different lengths; two input rows with the same require key - "same" as sent (Python equality
     of the tuples: that is what the code checks) or same after the column's type conversion (that is
@@ -27,8 +43,10 @@ INTERPRETATION (the reading of the property text that the check demands):
   * a formula / unknown column in `col_values` must be rejected when a record would be written
     (code comment: "setting such a column there should raise an error"); an unknown column in
     `require` is always rejected.
-  * `id` / `manualSort` as keys, empty (formula-less) columns and compound cell values are out of
-    scope (C27 / C18 territory); option values are booleans or absent.
+  * `id` / `manualSort` as keys and compound cell values are out of scope (C27 / C18 territory);
+    option values are booleans or absent.  Every case starts with column `e` EMPTY: a case that
+    converted it is followed by RemoveColumn + AddColumn (World.ensure_empty), so cases (also the
+    chained ones, which keep the data columns of the rows) are independent and replays faithful.
 """
 import copy
 import itertools
@@ -39,12 +57,16 @@ import random
 
 DATA = ["i", "t", "b", "c", "r"]
 TYPES = {"i": "Int", "t": "Text", "b": "Bool", "c": "Choice", "r": "Ref:R"}
+EMPTY = "e"                      # isFormula=True, formula='' , type Any
+STORED = DATA + [EMPTY]          # the columns that hold what is written (compared cell by cell)
 FORMULA = "f"
 F_EXPR = "($i if isinstance($i, int) else 0) * 2"
-ALLC = DATA + [FORMULA]
+ALLC = DATA + [EMPTY, FORMULA]
 # conversion fixed points per column (small pools, so duplicates abound)
 POOL = {"i": [0, 1, 2, 3], "t": ["", "a", "b", "1"], "b": [True, False], "c": ["", "u", "v"],
-        "r": [0, 1, 2, 3], "f": [0, 2, 4, 6]}
+        "r": [0, 1, 2, 3], "f": [0, 2, 4, 6],
+        # None = what every cell of a still-empty column holds; '' is blank too; "1" and 1 are both numeric
+        "e": [None, None, "", "a", "b", 1, 2, "1"]}
 WILD = [None, True, False, 0, 1, 2, "", "a", "1", "2", "true", "x"]
 BAD_ON_MANY = ["First", "", "any", 0, None, "ALL", "nope"]
 
@@ -52,6 +74,8 @@ SIG_TRIM = ("two input rows give values to the same record and the later values 
             "before the action: the earlier row's values stay")
 SIG_CONVDUP = "require rows distinct as sent but equal after the column's type conversion are accepted"
 SIG_SINGLE = "AddOrUpdateRecord with empty require and empty col_values returns NONE without checking its options"
+SIG_BLANK = ("blank string '' required on an empty column that stays empty is stored as None: the added record does "
+             "not match its own require")
 
 
 # --------------------------------------------------------------------------- tokens
@@ -72,6 +96,38 @@ def ptok(v):
 
 # --------------------------------------------------------------------------- world
 
+E_INFO = {"type": "Any", "isFormula": True, "formula": ""}
+
+
+class EmptyConv(object):
+  """What `_ensure_column_accepts_data` does with the values one bulk action carries for an EMPTY
+  column of type Any - a parameter taken from the live code (like `col.convert`)."""
+
+  def __init__(self, engine):
+    import useractions
+    import usertypes
+    self._guess = useractions.guess_col_info
+    self._usertypes = usertypes
+    self._docmodel = engine.docmodel
+
+  def guess(self, values):
+    """(new type name or None when the column stays empty, the values to store before the new type's conversion)"""
+    info, vals = self._guess(list(values), self._docmodel)
+    if not info:
+      return None, list(vals)
+    assert set(info) == {"type"}, info
+    return info["type"], list(vals)
+
+  def _type(self, tname):
+    return getattr(self._usertypes, self._usertypes.get_pure_type(tname))()
+
+  def tconv(self, tname, v):
+    return self._type(tname).convert(v)
+
+  def tdefault(self, tname):
+    return self._type(tname).default
+
+
 class World(object):
   def __init__(self):
     from gx import engine_driver as ed
@@ -80,6 +136,7 @@ class World(object):
     r = self.doc.apply([["AddTable", "R", [{"id": "name", "type": "Text", "isFormula": False}]]])
     assert r.ok, r.error
     cols = [{"id": c, "type": TYPES[c], "isFormula": False} for c in DATA]
+    cols.append(dict(E_INFO, id=EMPTY))
     cols.append({"id": FORMULA, "type": "Int", "isFormula": True, "formula": F_EXPR})
     r = self.doc.apply([["AddTable", "T", cols]])
     assert r.ok, r.error
@@ -87,8 +144,35 @@ class World(object):
     assert r.ok, r.error
     self.table = self.doc.engine.tables["T"]
     self.n_cases = 0
-    # every table but T, as the last case left it (our own resets only touch T)
+    self.n_restored = 0
+    self.econv = EmptyConv(self.doc.engine)
+    assert self.is_empty()
+    self.refresh()
+
+  def refresh(self):
+    # every table but T, as the last case left it (our own resets only touch T's rows; when column e
+    # is put back its metadata records are new ones)
     self.others = {t: v for t, v in self.doc.snapshot().items() if t != "T"}
+    tref = [t["id"] for t in self.doc.meta("_grist_Tables") if t["tableId"] == "T"][0]
+    self.e_ref = [c["id"] for c in self.doc.meta("_grist_Tables_column")
+                  if c["parentId"] == tref and c["colId"] == EMPTY][0]
+
+  def is_empty(self):
+    sc = self.doc.engine.schema["T"].columns[EMPTY]
+    col = self.table.get_column(EMPTY)
+    return bool(sc.isFormula) and sc.formula == "" and sc.type == "Any" and col.is_formula()
+
+  def ensure_empty(self):
+    """Column e back to the state of a freshly added column (all cells None)."""
+    if self.is_empty():
+      return
+    r = self.doc.apply([["RemoveColumn", "T", EMPTY]])
+    assert r.ok, r.error
+    r = self.doc.apply([["AddColumn", "T", EMPTY, dict(E_INFO)]])
+    assert r.ok, r.error
+    assert self.is_empty()
+    self.n_restored += 1
+    self.refresh()
 
   def conv(self, c, v):
     if c in ALLC:
@@ -101,6 +185,7 @@ class World(object):
     return [[r, {c: td.columns[c][k] for c in ALLC}] for k, r in enumerate(td.row_ids)]
 
   def reset(self, rows):
+    self.ensure_empty()
     ids = list(self.table.row_ids)
     if ids:
       r = self.doc.apply([["BulkRemoveRecord", "T", sorted(ids)]])
@@ -150,14 +235,84 @@ def classify_invalid(case, conv):
   return out
 
 
-def reference(rows0, next_id, defaults, conv, case):
+def walk(rows0, conv, req, cv, opt, n):
+  """Per input row, on the table BEFORE the action: ("add", []) / ("upd", receivers) / ("none", [])."""
+  update = opt.get("update", True)
+  add = opt.get("add", True)
+  on_many = opt.get("on_many", "first")
+  before = dict((r[0], r[1]) for r in rows0)
+  steps = []
+  for k in range(n):
+    key = {c: conv(c, req[c][k]) for c in req}
+    ms = [rid for rid, _ in rows0 if all(before[rid][c] == key[c] for c in key)]
+    if not ms:
+      steps.append(("add", []) if add else ("none", []))
+    elif not update:
+      steps.append(("upd", []))
+    elif len(ms) == 1 or on_many == "all":
+      steps.append(("upd", ms))
+    elif on_many == "first":
+      steps.append(("upd", ms[:1]))
+    else:
+      steps.append(("upd", []))
+  return steps
+
+
+def empty_plan(steps, req, cv, econv):
+  """What the two bulk actions store into the (still EMPTY) column e.  {"conv_add"/"conv_upd": type the
+  column is converted to by the BulkAddRecord / the BulkUpdateRecord (or None), "add"/"upd": {input
+  row: stored value}}."""
+  plan = {"conv_add": None, "conv_upd": None, "add": {}, "upd": {}}
+  state = None
+  src = cv if EMPTY in cv else (req if EMPTY in req else None)   # {**require, **col_values}
+  add_rows = [k for k, st in enumerate(steps) if st[0] == "add"]
+  if add_rows and src is not None:
+    tname, vals = econv.guess([src[EMPTY][k] for k in add_rows])
+    if tname is not None:
+      state = plan["conv_add"] = tname
+      vals = [econv.tconv(tname, v) for v in vals]
+    plan["add"] = dict(zip(add_rows, vals))
+  upd = [k for k, st in enumerate(steps) for _ in st[1]]          # one value per (input row, receiver)
+  if upd and EMPTY in cv:
+    vals = [cv[EMPTY][k] for k in upd]
+    if state is None:
+      tname, vals = econv.guess(vals)
+      if tname is not None:
+        state = plan["conv_upd"] = tname
+    if state is not None:
+      vals = [econv.tconv(state, v) for v in vals]
+    plan["upd"] = dict(zip(upd, vals))
+  return plan
+
+
+def plan_for(rows0, conv, econv, case):
+  """The empty-column plan of a request whatever its validity (None if it has no well-formed input
+  rows or does not name column e) - the model's parameters for column e."""
+  req, cv = case["require"], case["col_values"]
+  if EMPTY not in req and EMPTY not in cv:
+    return None
+  if case["kind"] == "single":
+    req = {k: [v] for k, v in req.items()}
+    cv = {k: [v] for k, v in cv.items()}
+  lens = set(len(v) for v in req.values()) | set(len(v) for v in cv.values())
+  if len(lens) != 1 or any(c not in ALLC for c in req):
+    return None
+  opt = resolve_options(case["options"])
+  if opt["on_many"] == "bad":
+    return None
+  return empty_plan(walk(rows0, conv, req, cv, opt, lens.pop()), req, cv, econv)
+
+
+def reference(rows0, next_id, defaults, conv, case, econv):
   """The documented behaviour on plain python values.  `rows0` = [[id, {col: val}]] in id order.
-  Returns ("reject", why) or ("ok", rows, ret, receivers_per_input_row)."""
+  Returns ("reject", why) or ("ok", rows, ret, receivers_per_input_row, info); info = {"plan": the
+  empty-column plan, "adds": [(input row, new id)]}."""
   req, cv, opt = case["require"], case["col_values"], case["options"]
   single = case["kind"] == "single"
+  no_info = {"plan": None, "adds": []}
   if single:
     if not req and not cv and not classify_invalid(case, conv):
-      return ("ok", copy.deepcopy(rows0), {"recordIds": [], "action": "NONE"}, [])
+      return ("ok", copy.deepcopy(rows0), {"recordIds": [], "action": "NONE"}, [], no_info)
     req = {k: [v] for k, v in req.items()}
     cv = {k: [v] for k, v in cv.items()}
   bad = classify_invalid(case, conv)
@@ -166,73 +321,79 @@ def reference(rows0, next_id, defaults, conv, case):
   for c in req:
     if c not in ALLC:
       return ("reject", "unknown column in require")
-  update = opt.get("update", True)
-  add = opt.get("add", True)
-  on_many = opt.get("on_many", "first")
   ret = {"recordIds": [], "addRecordIds": [], "updateRecordIds": []}
   rows = copy.deepcopy(rows0)
   if not req and not cv:
-    return ("ok", rows, ret if not single else {"recordIds": [], "action": "NONE"}, [])
+    return ("ok", rows, ret if not single else {"recordIds": [], "action": "NONE"}, [], no_info)
   n = len(list(req.values())[0]) if req else len(list(cv.values())[0])
-  byid = dict((r[0], r[1]) for r in rows)
-  before = dict((r[0], r[1]) for r in rows0)
-  wrote = False
-  recv = []
-  for k in range(n):
-    key = {c: conv(c, req[c][k]) for c in req}
-    ms = [rid for rid, _ in rows0 if all(before[rid][c] == key[c] for c in key)]
-    vals = {c: conv(c, cv[c][k]) for c in cv}
-    if not ms:
-      recv.append([])
-      if add:
-        rec = dict(defaults)
-        rec.update({c: key[c] for c in key if c != FORMULA})
-        rec.update(vals)
-        rows.append([next_id, rec])
-        ret["recordIds"].append([next_id])
-        ret["addRecordIds"].append(next_id)
-        next_id += 1
-        wrote = True
-      else:
-        ret["recordIds"].append([])
-      continue
-    if not update:
-      sel = []
-    elif len(ms) == 1 or on_many == "all":
-      sel = ms
-    elif on_many == "first":
-      sel = ms[:1]
-    else:
-      sel = []
+  steps = walk(rows0, conv, req, cv, opt, n)
+  plan = empty_plan(steps, req, cv, econv)
+  new_rows, adds, writes, recv = [], [], [], []
+  for k, (what, sel) in enumerate(steps):
+    vals = {c: conv(c, cv[c][k]) for c in cv if c != EMPTY}
     recv.append(sel)
+    if what == "add":
+      rec = dict(defaults)
+      # require values of EMPTY columns are stored like those of data columns; real formula columns are not
+      rec.update({c: conv(c, req[c][k]) for c in req if c not in (FORMULA, EMPTY)})
+      rec.update(vals)
+      if EMPTY in req or EMPTY in cv:
+        rec[EMPTY] = plan["add"][k]
+      new_rows.append([next_id, rec])
+      adds.append((k, next_id))
+      ret["recordIds"].append([next_id])
+      ret["addRecordIds"].append(next_id)
+      next_id += 1
+      continue
+    if EMPTY in cv and sel:
+      vals[EMPTY] = plan["upd"][k]
     for rid in sel:
-      byid[rid].update(vals)
-      wrote = True
+      writes.append((rid, vals))
     ret["recordIds"].append(sel)
     if sel:
       ret["updateRecordIds"].append(sel)
-  if wrote:
+  if new_rows or writes:
     for c in cv:
-      if c not in DATA:
+      if c not in STORED:
         return ("reject", "formula column in col_values" if c == FORMULA else "unknown column in col_values")
+  # BulkAddRecord: a conversion of column e fills the records that exist, then the new ones are appended
+  if plan["conv_add"] is not None:
+    for _, rec in rows:
+      rec[EMPTY] = econv.tdefault(plan["conv_add"])
+  rows += new_rows
+  # BulkUpdateRecord: a conversion fills all records (the new ones too), then the receivers are
+  # written in input order (the last input row wins)
+  if plan["conv_upd"] is not None:
+    for _, rec in rows:
+      rec[EMPTY] = econv.tdefault(plan["conv_upd"])
+  byid = dict((r[0], r[1]) for r in rows)
+  for rid, vals in writes:
+    byid[rid].update(vals)
   if single:
     ids = ret["recordIds"][0] if ret["recordIds"] else []
     action = "UPDATE" if ret["updateRecordIds"] else ("ADD" if ret["addRecordIds"] else "NONE")
     ret = {"recordIds": ids, "action": action}
-  return ("ok", rows, ret, recv)
+  return ("ok", rows, ret, recv, {"plan": plan, "adds": adds})
 
 
-def trim_variant(rows0, conv, case, recv):
+def trim_variant(rows0, conv, case, recv, plan, econv):
   """What the rows look like if, among the accumulated (record, values) pairs, those equal to the
-  record's cells BEFORE the action are dropped (Engine.trim_update_action) - only used to give the
-  known deviation its specific signature."""
+  record's cells BEFORE the BulkUpdateRecord writes (Engine.trim_update_action; a conversion of the
+  empty column has filled its cells by then) are dropped - only used to give the known deviation its
+  specific signature."""
   cv = case["col_values"]
   if case["kind"] == "single":
     cv = {k: [v] for k, v in cv.items()}
-  before = dict((r[0], r[1]) for r in rows0)
-  out = copy.deepcopy(dict((r[0], r[1]) for r in rows0))
+  before = copy.deepcopy(dict((r[0], r[1]) for r in rows0))
+  for tname in (plan["conv_add"], plan["conv_upd"]):
+    if tname is not None:
+      for rec in before.values():
+        rec[EMPTY] = econv.tdefault(tname)
+  out = copy.deepcopy(before)
   for k, sel in enumerate(recv):
-    vals = {c: conv(c, cv[c][k]) for c in cv}
+    vals = {c: conv(c, cv[c][k]) for c in cv if c != EMPTY}
+    if EMPTY in cv and sel:
+      vals[EMPTY] = plan["upd"][k]
     for rid in sel:
       if any(before[rid][c] != vals[c] for c in vals):
         out[rid].update(vals)
@@ -241,20 +402,40 @@ def trim_variant(rows0, conv, case, recv):
 
 # --------------------------------------------------------------------------- one case
 
-def model_op(w, case, rows0, next_id, defaults):
+def model_op(w, case, rows0, next_id, defaults, plan):
   req, cv = case["require"], case["col_values"]
   op = {"m": "upsert", "op": case["kind"],
-        "schema": [[c, "data"] for c in DATA] + [[FORMULA, "formula"]],
+        "schema": [[c, "data"] for c in DATA] + [[EMPTY, "empty"], [FORMULA, "formula"]],
         "table": [[rid, [[c, ptok(rec[c])] for c in ALLC]] for rid, rec in rows0],
         "next": next_id,
-        "defaults": [[c, ptok(defaults[c])] for c in DATA],
+        "defaults": [[c, ptok(defaults[c])] for c in STORED],
         "options": resolve_options(case["options"])}
+
+  def rtok(c, k, v):
+    # [as sent, as looked up, as stored in an added record]
+    cell = [ptok(v), ptok(w.conv(c, v))]
+    if c == EMPTY and plan is not None and k in plan["add"]:
+      cell.append(ptok(plan["add"][k]))
+    return cell
+
+  def vtok(c, k, v):
+    if c == EMPTY and plan is not None:
+      if k in plan["add"]:
+        return ptok(plan["add"][k])
+      if k in plan["upd"]:
+        return ptok(plan["upd"][k])
+    return ptok(w.conv(c, v))
+
   if case["kind"] == "bulk":
-    op["require"] = [[c, [[ptok(v), ptok(w.conv(c, v))] for v in vs]] for c, vs in req.items()]
-    op["col_values"] = [[c, [ptok(w.conv(c, v)) for v in vs]] for c, vs in cv.items()]
+    op["require"] = [[c, [rtok(c, k, v) for k, v in enumerate(vs)]] for c, vs in req.items()]
+    op["col_values"] = [[c, [vtok(c, k, v) for k, v in enumerate(vs)]] for c, vs in cv.items()]
   else:
-    op["require"] = [[c, [ptok(v), ptok(w.conv(c, v))]] for c, v in req.items()]
-    op["col_values"] = [[c, ptok(w.conv(c, v))] for c, v in cv.items()]
+    op["require"] = [[c, rtok(c, 0, v)] for c, v in req.items()]
+    op["col_values"] = [[c, vtok(c, 0, v)] for c, v in cv.items()]
+  if plan is not None:
+    for key in ("conv_add", "conv_upd"):
+      if plan[key] is not None:
+        op[key] = [[EMPTY, ptok(w.econv.tdefault(plan[key]))]]
   return op
 
 
@@ -279,12 +460,16 @@ def run_case(w, case, reset=True):
   ed = w.ed
   if reset:
     w.reset(case["rows"])
+  else:
+    w.ensure_empty()       # a chained case keeps the rows (data columns), not a converted column e
   w.n_cases += 1
   rows0 = w.rows()
+  assert all(rec[EMPTY] is None for _, rec in rows0), rows0
   next_id = w.table.next_row_id()
-  defaults = {c: w.table.get_column(c).getdefault() for c in DATA}
-  op = model_op(w, case, rows0, next_id, defaults)
-  ref = reference(rows0, next_id, defaults, w.conv, case)
+  defaults = {c: w.table.get_column(c).getdefault() for c in STORED}
+  plan = plan_for(rows0, w.conv, w.econv, case)
+  op = model_op(w, case, rows0, next_id, defaults, plan)
+  ref = reference(rows0, next_id, defaults, w.conv, case, w.econv)
   invalid = classify_invalid(case, w.conv)
   before = dict(w.others, T=w.doc.snapshot(tables=["T"])["T"])
   name = "BulkAddOrUpdateRecord" if case["kind"] == "bulk" else "AddOrUpdateRecord"
@@ -292,7 +477,9 @@ def run_case(w, case, reset=True):
   after = w.doc.snapshot()
   w.others = {t: v for t, v in after.items() if t != "T"}
   findings = []
-  facts = {"accepted": bool(res.ok), "invalid": invalid, "wrote": False, "n_rows": len(rows0)}
+  facts = {"accepted": bool(res.ok), "invalid": invalid, "wrote": False, "n_rows": len(rows0),
+           "e_require": EMPTY in case["require"], "e_col_values": EMPTY in case["col_values"],
+           "e_converted": None, "e_stored_from_require": 0, "e_matched_none": False}
 
   def find(sig, detail):
     findings.append((sig, detail))
@@ -307,9 +494,11 @@ def run_case(w, case, reset=True):
     ret = res.ret[0]
     td = after["T"]
     real = {"ids": list(td["ids"]),
-            "cells": {str(rid): {c: ptok(v) for c, v in rec.items() if c in DATA} for rid, rec in w.rows()},
+            "cells": {str(rid): {c: ptok(v) for c, v in rec.items() if c in STORED} for rid, rec in w.rows()},
             "ret": ret}
     facts["wrote"] = bool(res.raw_stored)
+    if not w.is_empty():
+      facts["e_converted"] = w.doc.engine.schema["T"].columns[EMPTY].type
     # ---- invalid arguments must be rejected
     if invalid:
       if case["kind"] == "single" and not case["require"] and not case["col_values"]:
@@ -321,12 +510,41 @@ def run_case(w, case, reset=True):
     elif ref[0] == "reject":
       find("request must be rejected (%s) but was accepted" % ref[1], "result %r" % (ret,))
     else:
-      _, rrows, rret, recv = ref
-      # ---- frame at document level: nothing but T may change, old rows keep their position
+      _, rrows, rret, recv, info = ref
+      plan = info["plan"] or {"conv_add": None, "conv_upd": None, "add": {}, "upd": {}}
+      # ---- frame at document level: nothing but T may change - except the metadata record of
+      # column e when a bulk action converts it (type, isFormula) - old rows keep their position
       other = {t: v for t, v in before.items() if t != "T"}
       other_after = {t: v for t, v in after.items() if t != "T"}
+      tname = plan["conv_add"] or plan["conv_upd"]
+      if tname is not None:
+        other = copy.deepcopy(other)
+        mc = other["_grist_Tables_column"]
+        j = mc["ids"].index(w.e_ref)
+        mc["cols"]["type"][j] = ed.tokv(tname)
+        mc["cols"]["isFormula"][j] = ed.tokv(False)
       if other != other_after:
-        find("upsert changed another table", "; ".join(ed.diff_snapshots(other, other_after)))
+        find("upsert changed another table" if tname is None else
+             "metadata after the upsert differ from the conversion of the empty column to %s" % tname,
+             "; ".join(ed.diff_snapshots(other, other_after)))
+      # ---- an added record matches its own require (not: real formula columns, columns overridden by col_values)
+      sreq = case["require"] if case["kind"] == "bulk" else {c: [v] for c, v in case["require"].items()}
+      cells = dict((rid, rec) for rid, rec in w.rows())
+      for k, new_id in info["adds"]:
+        for c in sreq:
+          if c == FORMULA or c in case["col_values"] or new_id not in cells:
+            continue
+          sent, cell = sreq[c][k], cells[new_id][c]
+          if c == EMPTY:
+            facts["e_stored_from_require"] += 1
+          if w.table.get_column(c).convert(sent) != cell:
+            detail = "input row %d: require %s=%r, record %d holds %r" % (k, c, sent, new_id, cell)
+            if c == EMPTY and sent == "" and cell is None and w.is_empty():
+              find(SIG_BLANK, detail)
+            else:
+              find("added record does not match its own require", detail)
+      if EMPTY in sreq and any(sel for sel in recv):
+        facts["e_matched_none"] = True
       old_ids = before["T"]["ids"]
       if td["ids"][:len(old_ids)] != old_ids:
         find("a row was removed or reordered", "ids %r -> %r" % (old_ids, td["ids"]))
@@ -342,7 +560,7 @@ def run_case(w, case, reset=True):
       else:
         diffs = []
         for k, (rid, rec) in enumerate(rrows):
-          for c in DATA:
+          for c in STORED:
             if ed.tokv(rec[c]) != td["cols"][c][k]:
               diffs.append((rid, c, ed.tokv(rec[c]), td["cols"][c][k]))
         if diffs:
@@ -352,12 +570,13 @@ def run_case(w, case, reset=True):
             for x in sel:
               cnt[x] = cnt.get(x, 0) + 1
           new_ids = set(exp_ids[len(old_ids):])
-          rid, c, e, g = diffs[0]
+          # (an added record that is wrong comes first: other differences are often its consequences)
+          rid, c, e, g = ([d for d in diffs if d[0] in new_ids] + diffs)[0]
           detail = "row %s column %s: expected %s got %s (%d cells differ)" % (rid, c, e, g, len(diffs))
           if all(cnt.get(d[0], 0) >= 2 for d in diffs):
-            tv = trim_variant(rows0, w.conv, case, recv)
+            tv = trim_variant(rows0, w.conv, case, recv, plan, w.econv)
             if all(ed.tokv(tv[rid][c]) == td["cols"][c][k]
-                   for k, rid in enumerate(old_ids) for c in DATA):
+                   for k, rid in enumerate(old_ids) for c in STORED):
               find(SIG_TRIM, detail)
             else:
               find("record updated by several input rows has unexpected cells", detail)
@@ -390,7 +609,7 @@ def compare_model(real, mo, kind):
     return "row ids: real %r model %r" % (real["ids"], mids)
   for rid, rec in m["table"]:
     d = dict((c, v) for c, v in rec)
-    for c in DATA:
+    for c in STORED:
       if d.get(c) != real["cells"][str(rid)][c]:
         return "cell %s.%s: real %r model %r" % (rid, c, real["cells"][str(rid)][c], d.get(c))
   return None
@@ -434,6 +653,9 @@ def gen_request(rng, rows, w):
   n = rng.choice([0, 1, 1, 2, 2, 2, 3, 3, 4])
   rc = rng.choice([0, 1, 1, 1, 1, 2, 2])
   req_cols = rng.sample(ALLC, rc)
+  if EMPTY not in req_cols and rng.random() < 0.04:      # the empty column as (one of the) key(s)
+    req_cols = req_cols[:1] + [EMPTY]
+    rng.shuffle(req_cols)
   if rng.random() < 0.02:
     req_cols.append("zz")
   wild = rng.random() < 0.12
@@ -443,11 +665,12 @@ def gen_request(rng, rows, w):
     tries += 1
     if rows and rng.random() < 0.65:
       src = rng.choice(rows)[1]
+      i = src["i"]
+      # the cells of an existing row: f is computed from i, e (still empty) is None - half of the time;
+      # any other value of e matches nothing
+      src = dict(src, **{FORMULA: i * 2 if isinstance(i, int) and not isinstance(i, bool) else 0,
+                         EMPTY: None if rng.random() < 0.5 else rng.choice(POOL[EMPTY])})
       key = tuple(src.get(c, 0) for c in req_cols)
-      if FORMULA in req_cols:
-        i = src["i"]
-        key = tuple((i * 2 if isinstance(i, int) and not isinstance(i, bool) else 0) if c == FORMULA else src.get(c, 0)
-                    for c in req_cols)
     else:
       key = tuple(rng.choice(WILD if wild else POOL.get(c, [0, 1])) for c in req_cols)
     if wild and rng.random() < 0.3:
@@ -462,6 +685,9 @@ def gen_request(rng, rows, w):
   require = {c: [k[j] for k in keys[:n]] for j, c in enumerate(req_cols)}
   cc = rng.choice([0, 1, 1, 1, 2, 2, 3])
   cv_cols = rng.sample(DATA, cc)
+  if rng.random() < 0.08:                                 # values for the empty column
+    cv_cols = cv_cols[:2] + [EMPTY]
+    rng.shuffle(cv_cols)
   x = rng.random()
   if x < 0.04:
     cv_cols.append(FORMULA)
@@ -583,6 +809,48 @@ def exhaustive_cases(tier, rng):
                     "col_values": {"c" if c == "t" else "t": ["a", "b"]}, "options": dict(o)})
   if tier == "quick":
     out = [x for x in out if rng.random() < 0.18]
+  # (d) the EMPTY column e (type Any, formula ''), two records with i = 1, 2 (their e cells are None)
+  # (a case that converts the column costs ~10 x a plain one - three schema changes: sampled thinner)
+  n_abc = len(out)
+  base = {"t": "a", "b": False, "c": "", "r": 0}
+  rows2 = [[1, dict(base, i=1)], [2, dict(base, i=2)]]
+  ev = [None, "", "a", 1, "1"]
+  some = [opts[0], opts[1], opts[2], opts[4], opts[6], opts[8]]   # on_many x update/add, 6 of the 12
+  for rows in ([], rows2):
+    # (d1) e alone as the key: None matches every record, anything else none -> the value must be stored
+    for n in (1, 2):
+      for keys in itertools.permutations(ev, n):
+        for o in opts:
+          out.append({"kind": "bulk", "rows": rows, "require": {EMPTY: list(keys)},
+                      "col_values": {"t": ["x", "y"][:n]}, "options": dict(o)})
+    # (d2) e next to a data key column
+    for ik in (1, 3):
+      for v in ev:
+        for o in some:
+          out.append({"kind": "bulk", "rows": rows, "require": {"i": [ik], EMPTY: [v]},
+                      "col_values": {"t": ["x"]}, "options": dict(o)})
+          out.append({"kind": "single", "rows": rows, "require": {EMPTY: v, "i": ik},
+                      "col_values": {}, "options": dict(o)})
+    # (d3) values for e in col_values: added and updated records in one request, blank and non-blank
+    for n in (1, 2):
+      for keys in itertools.permutations([1, 2, 3], n):
+        for vals in itertools.product([None, "", "a", 1], repeat=n):
+          for o in some:
+            out.append({"kind": "bulk", "rows": rows, "require": {"i": list(keys)},
+                        "col_values": {EMPTY: list(vals)}, "options": dict(o)})
+    # (d4) e in require and in col_values (col_values wins in the added record)
+    for v in ev:
+      for v2 in (None, "a", 2):
+        for o in some[:3]:
+          out.append({"kind": "bulk", "rows": rows, "require": {EMPTY: [v]},
+                      "col_values": {EMPTY: [v2]}, "options": dict(o)})
+  # (d5) empty require: every input row names every record, with values for e (conversion + trimmed update)
+  for vals in itertools.product([None, "", "a", 1], repeat=2):
+    for o in some:
+      out.append({"kind": "bulk", "rows": rows2, "require": {}, "col_values": {EMPTY: list(vals), "t": ["a", "b"]},
+                  "options": dict(o, allow_empty_require=True)})
+  if tier == "quick":
+    out = out[:n_abc] + [x for x in out[n_abc:] if rng.random() < 0.08]
   return out
 
 
@@ -597,6 +865,21 @@ WITNESSES = [
   {"kind": "single", "rows": [[1, {"i": 0, "t": "b", "b": False, "c": "", "r": 0}]],
    "require": {}, "col_values": {}, "options": {"on_many": "nope"}, "witness": "single_shortcut"},
   {"kind": "single", "rows": [], "require": {}, "col_values": {}, "options": {}, "witness": "single_shortcut"},
+  # the empty column e: its require value is stored in the added record (Lean: add_values_keep_empty_column) ...
+  {"kind": "bulk", "rows": [[1, {"i": 1, "t": "a", "b": False, "c": "", "r": 0}]],
+   "require": {"e": ["k"]}, "col_values": {"t": ["x"]}, "options": {}, "witness": "empty_column_require_stored"},
+  {"kind": "bulk", "rows": [[1, {"i": 1, "t": "a", "b": False, "c": "", "r": 0}]],
+   "require": {"i": [7, 8], "e": [5, 6]}, "col_values": {}, "options": {}, "witness": "empty_column_require_stored"},
+  {"kind": "single", "rows": [], "require": {"e": "k", "f": 0}, "col_values": {"t": "x"}, "options": {},
+   "witness": "empty_column_require_stored"},
+  # ... None matches the records of a still-empty column, 3 matches none and converts the column ...
+  {"kind": "bulk", "rows": [[1, {"i": 1, "t": "a", "b": False, "c": "", "r": 0}],
+                            [2, {"i": 2, "t": "b", "b": False, "c": "", "r": 0}]],
+   "require": {"e": [None, 3]}, "col_values": {"t": ["x", "y"]}, "options": {"on_many": "all"},
+   "witness": "empty_column_none_matches"},
+  # ... and '' is stored as None (the column stays empty): the record does not match its require
+  {"kind": "bulk", "rows": [[1, {"i": 1, "t": "a", "b": False, "c": "", "r": 0}]],
+   "require": {"e": [""]}, "col_values": {"t": ["x"]}, "options": {}, "witness": "empty_column_blank_require"},
 ]
 
 
@@ -674,6 +957,24 @@ def judge(ck, results):
         ck.count("single:" + ret["action"])
     om = case["options"].get("on_many", "absent")
     ck.count("on_many:%s" % (om if om in ("first", "none", "all", "absent") else "bad"))
+    # ---- the empty column
+    if facts["e_require"] or facts["e_col_values"]:
+      ck.count("empty_col:cases_naming_it")
+      ck.count("empty_col:in_require" if facts["e_require"] else "empty_col:only_in_col_values")
+      if facts["e_require"] and facts["e_col_values"]:
+        ck.count("empty_col:in_require_and_col_values")
+      if facts["accepted"]:
+        ck.count("empty_col:accepted")
+        ck.count("empty_col:converted_to_%s" % facts["e_converted"] if facts["e_converted"] else "empty_col:stays_empty")
+        if "conv_add" in r["op"]:
+          ck.count("empty_col:converted_by_BulkAddRecord")
+        if "conv_upd" in r["op"]:
+          ck.count("empty_col:converted_by_BulkUpdateRecord")
+      if facts["e_stored_from_require"]:
+        ck.count("empty_col:accepted_cases_storing_require_value_in_added_record")
+        ck.count("empty_col:require_values_stored_in_added_records", facts["e_stored_from_require"])
+      if facts["e_matched_none"]:
+        ck.count("empty_col:require_matched_records_on_still_empty_column")
     nontriv = (facts["accepted"] and facts["wrote"] and facts["n_rows"] >= 2) or \
               (not facts["accepted"] and facts["invalid"] and facts["n_rows"] >= 1)
     if nontriv:
@@ -690,7 +991,9 @@ def judge(ck, results):
     # the model's own impl-vs-spec agreement on this concrete input (theorem instance)
     if case["kind"] == "bulk" and "spec" in mo:
       tg = mo.get("targets", [])
-      if len(set(tg)) == len(tg) and not same_outcome(mo["impl"], mo["spec"]):
+      # (a conversion of the empty column is not part of the row-at-a-time spec: its cells are left out then)
+      skip = (EMPTY,) if ("conv_add" in r["op"] or "conv_upd" in r["op"]) else ()
+      if len(set(tg)) == len(tg) and not same_outcome(mo["impl"], mo["spec"], skip):
         ck.count("model_impl_vs_spec_disagreements_without_overlap")
         if mism is None:
           mism = {"case": case, "difference": "Lean impl != Lean spec without overlapping targets", "model": mo}
@@ -704,23 +1007,28 @@ def judge(ck, results):
     ck.count("disagreements_next_to_reported_violation")
 
 
-def same_outcome(a, b):
+def same_outcome(a, b, skip=()):
   if "error" in a or "error" in b:
     return a.get("error") == b.get("error") and a.get("tag") == b.get("tag")
   if any(a[k] != b[k] for k in ("recordIds", "addRecordIds", "updateRecordIds")):
     return False
-  ta = [(r[0], sorted(map(tuple, r[1]))) for r in a["table"]]
-  tb = [(r[0], sorted(map(tuple, r[1]))) for r in b["table"]]
+  ta = [(r[0], sorted(tuple(x) for x in r[1] if x[0] not in skip)) for r in a["table"]]
+  tb = [(r[0], sorted(tuple(x) for x in r[1] if x[0] not in skip)) for r in b["table"]]
   return ta == tb
 
 
-RULE = ("seeded stream of cases on a live engine: table T (Int/Text/Bool/Choice/Ref columns + formula column, <= 6 rows, "
+RULE = ("seeded stream of cases on a live engine: table T (Int/Text/Bool/Choice/Ref columns + an EMPTY column e (type Any, "
+        "formula '') + formula column, <= 6 rows, "
         "row ids with gaps, few distinct values so keys repeat), bulk requests of 0-4 input rows over 0-2 require columns "
-        "(incl. the formula column) and 0-3 col_values columns, every on_many/update/add/allow_empty_require combination "
+        "(incl. the formula column and the empty column) and 0-4 col_values columns (incl. the empty column; blank and "
+        "non-blank values, so that it stays empty or is converted to Text/Numeric by the BulkAddRecord or by the "
+        "BulkUpdateRecord; it is put back to the empty state before the next case), "
+        "every on_many/update/add/allow_empty_require combination "
         "(present or absent), wild values that change under type conversion, an invalid-argument stream (bad on_many, empty "
         "require, unequal lengths, duplicate keys incl. 1/True aliases), AddOrUpdateRecord cases, 25% of the cases chained "
         "on the previous case's table; plus exhaustive small scopes (3 rows x keys in {1,2,3} x 12 option combinations; "
-        "empty require with 1-3 input rows; keys coinciding after conversion per column type). "
+        "empty require with 1-3 input rows; keys coinciding after conversion per column type; the empty column as the "
+        "only key, next to a data key, in col_values, in both, and under an empty require, on an empty and a 2-row table). "
         "non-trivial = accepted request that wrote to a table of >= 2 rows, or an invalid request rejected on a non-empty "
         "table; distinct by (rows, request, options)")
 
@@ -728,7 +1036,12 @@ ASSUMPTIONS = [
   "cell values are None/bool/int/str scalars; Python equality of values = equality of tokens (checked per case by the tie)",
   "type conversion (col.convert), column defaults and table.next_row_id() are parameters taken from the live column objects",
   "lookup_records(**key) = rows whose cells equal the converted key, in row-id order (index exactness is C13/C05)",
-  "no 'id'/'manualSort' keys, no empty (formula-less) columns, option values boolean or absent",
+  "no 'id'/'manualSort' keys, option values boolean or absent",
+  "empty column: guess_col_info (type guess from the values of one bulk action; no JS sandbox: Numeric or Text), the "
+  "guessed type's convert and default are parameters taken from the live code; the cells of a still-empty column are None",
+  "the conversion of the empty column is in the model the tie uses (upsertImplConv: fill of the existing rows with the "
+  "new default before BulkAddRecord appends / before BulkUpdateRecord trims) but not in the row-at-a-time Lean spec: "
+  "the model's impl-vs-spec instance check leaves the cells of column e out when a conversion happens",
   "at most one non-writable column in col_values (which of two errors comes first depends on set iteration order)",
   "Lean theorem hypotheses: next exceeds every row id, row ids distinct, (for impl=spec) no record targeted twice",
 ]
